@@ -6,6 +6,7 @@
 import Mcp.Props.C02Wire
 import Mcp.Gen.Writers
 import Mcp.Model.Frames
+import Mcp.Props.C09
 namespace Mcp.Props.C09
 open Mcp.Str Mcp.Json Mcp.Escape Mcp.Props.C02
 
@@ -114,5 +115,16 @@ theorem C09_chunk_model_is_text_model (id data : Text) :
     simp only [List.isEmpty_cons, Bool.false_eq_true, if_false, List.flatten_append, reduceCtorEq]
     rw [trim_agree, splitLines_agree, flatten_dataLines]
     simp
+
+/-- stdio side, with the payloads that really travel: any number of JSON messages, each rendered by the encoder and
+    terminated by LF, are recovered one per line by a line reader — the no-raw-newline hypothesis of
+    `C09_lines_roundtrip` is discharged by the encoder theorem `C02_message_is_one_line`, for every JSON value. -/
+theorem C09_json_lines_roundtrip (js : List Json) :
+    Mcp.Frames.lines ((js.map (fun j => render j ++ [10])).flatten) = (js.map render, []) := by
+  have h := C09_lines_roundtrip (js.map render) (by
+    intro m hm
+    obtain ⟨j, _, rfl⟩ := List.mem_map.1 hm
+    exact (C02_message_is_one_line j).1)
+  simpa [List.map_map, Function.comp_def] using h
 
 end Mcp.Props.C09
